@@ -1339,3 +1339,57 @@ class RlaStartToEndVector(Family):
         return {"a": [1, 1, 2, 3, 3, 3, 1]}
 
     bounded_cases = RlaUfunc.bounded_cases
+
+
+@register
+class RlaSum(Family):
+    """sum() of a signed-integer RunLengthArray equals the sum of the decoded array: with DS the prefix sums of the dense content
+    (DS(p+1) = DS(p) + values[run(p)]), np.sum(diff(events) * values) == DS(N).  Two inductions: along a run (a run of length c adds c * value) and
+    over the runs.  Integers are mathematical (no overflow); the products length * value are nonlinear terms handled by the solver's arithmetic."""
+    name = "RunLengthArray.sum"
+    qualname = "npstructures.runlengtharray:RunLengthArray.sum"
+    serves = ["C16"]
+    timeout_ms = 30000
+    assumed = ["numpy.diff, element-wise multiply, numpy.sum = last prefix sum", "integer data as mathematical integers",
+               "lemma partition-point (the run containing a position)"]
+
+    def run(self, ctx, kind):
+        from ..sym.theory import prefix_sum
+        a = sym_rla(ctx, kind="int")
+        m, E, V, n = a.m, a.E, a.V, a.n
+        run_ = z3.Function(fresh_name("run"), z3.IntSort(), z3.IntSort())
+        ctx.assume_forall("run", lambda p: z3.Implies(z3.And(0 <= p, p < n), z3.And(0 <= run_(p), run_(p) < m, E(run_(p)) <= p, p < E(run_(p) + 1))))
+        DS = z3.Function(fresh_name("DS"), z3.IntSort(), z3.IntSort())
+        ctx.assume(DS(0) == 0)
+        ctx.assume_forall("DS.step (spec: prefix sums of the decoded array)", lambda p: z3.Implies(z3.And(0 <= p, p < n), DS(p + 1) == DS(p) + V(run_(p))))
+        res = a.obj.sum()
+        pss = ctx.ghost["prefix_sums"][-1]
+        PP = pss["ps"]                            # prefix sums of lengths * values
+        ctx.prove("post.sum is the last prefix sum of length * value over the runs", z3.And(res.t == PP(m), pss["n"] == m), pool=[m])
+        t, c = z3.Int("t"), z3.Int("c")
+        ctx.skolem(z3.And(0 <= t, t < m, 0 <= c, c < E(t + 1) - E(t)))
+        p = E(t) + c
+        ctx.prove_then_assume("lemma: position E(t)+c lies in run t", run_(p) == t, pool=[p, t, t + 1, run_(p), run_(p) + 1])
+        inv = lambda c_: DS(E(t) + c_) == DS(E(t)) + c_ * V(t)
+        ctx.prove("lemmaA.base: c = 0", inv(z3.IntVal(0)), pool=[t], live=[c])
+        ctx.prove("lemmaA.step: along run t from c to c+1", z3.Implies(inv(c), inv(c + 1)), pool=[p, p + 1, t, c])
+        ctx.assume_forall("lemmaA (by induction on c)", lambda t_, c_: z3.Implies(z3.And(0 <= t_, t_ < m, 0 <= c_, c_ <= E(t_ + 1) - E(t_)), DS(E(t_) + c_) == DS(E(t_)) + c_ * V(t_)), arity=2)
+        t2 = z3.Int("t2")
+        ctx.skolem(z3.And(0 <= t2, t2 < m))
+        ctx.prove("lemmaB.base: PP(0) == DS(E(0))", PP(0) == DS(E(0)), pool=[z3.IntVal(0)], live=[t2])
+        ctx.prove("lemmaB.step: over the runs", z3.Implies(PP(t2) == DS(E(t2)), PP(t2 + 1) == DS(E(t2 + 1))), pool=[t2, t2 + 1, E(t2 + 1) - E(t2)])
+        ctx.assume_forall("lemmaB (by induction on t)", lambda t_: z3.Implies(z3.And(0 <= t_, t_ <= m), PP(t_) == DS(E(t_))))
+        ctx.prove("post.sum() == sum of the decoded array", res.t == DS(n), pool=[m], live=[t2])
+        ctx.prove("post.operand not modified", z3.BoolVal(a.ev.buf.writes == 0 and a.va.buf.writes == 0))
+
+    def concrete(self, case):
+        from npstructures import RunLengthArray
+        x = np.array(case["a"])
+        r = RunLengthArray.from_array(x)
+        if r.sum() != x.sum() or np.sum(r) != x.sum():
+            return {"msg": f"sum of rla({case['a']}) = {r.sum()}, numpy {x.sum()}", "sig": "wrong:rla-sum"}
+
+    def concretise(self, kind, model, ghost):
+        return {"a": [3, 3, -5, 7, 7, 7]}
+
+    bounded_cases = RlaUfunc.bounded_cases
